@@ -144,6 +144,9 @@ def gcm(case, ctx):
     ctx.case(nontrivial=True, classes=["gcm/positive-control"], ident=[E.ih, "control"], sample=case)
     ctx.check(r == 1 and pt == msg, "sm4_gcm_decrypt of the untouched output returned %d" % r, "gcm/positive-control")
     enumerate_oneshot(E, dec, iv, aad, ct, tg, (1, 64), "sm4_gcm_decrypt(key=%s, taglen=%d)" % (key.hex(), taglen))
+    full = Buf(16, fill=0)
+    l.sm4_gcm_encrypt(k, Buf.of(iv), len(iv), Buf.of(aad), len(aad), Buf.of(msg), len(msg), Buf(len(msg), fill=0), 16, full)
+    tag_lengths(E, dec, iv, aad, ct, tg, full.raw(), 12, False, "sm4_gcm_decrypt(key=%s, taglen=%d)" % (key.hex(), taglen))
 
 
 aes_case = st.fixed_dictionaries({"seed": st.integers(0, 1 << 32), "klen": st.sampled_from([16, 24, 32]),
@@ -174,6 +177,9 @@ def aes_gcm(case, ctx):
     ctx.case(nontrivial=True, classes=["aes_gcm/positive-control"], ident=[E.ih, "control"], sample=case)
     ctx.check(r == 1 and pt == msg, "aes_gcm_decrypt of the untouched output returned %d" % r, "aes_gcm/positive-control")
     enumerate_oneshot(E, dec, iv, aad, ct, tg, (1, 64), "aes_gcm_decrypt(key=%s, taglen=%d)" % (key.hex(), taglen))
+    full = Buf(16, fill=0)
+    l.aes_gcm_encrypt(k, Buf.of(iv), len(iv), Buf.of(aad), len(aad), Buf.of(msg), len(msg), Buf(len(msg), fill=0), 16, full)
+    tag_lengths(E, dec, iv, aad, ct, tg, full.raw(), None, False, "aes_gcm_decrypt(key=%s, taglen=%d)" % (key.hex(), taglen))
 
 
 ccm_case = st.fixed_dictionaries({"seed": st.integers(0, 1 << 32), "ivlen": st.integers(7, 13), "aadlen": st.integers(0, 24), "n": st.integers(0, 48),
@@ -209,6 +215,34 @@ def ccm(case, ctx):
         return
     ctx.check(pt == msg, "sm4_ccm_decrypt of the untouched output returns a different message", "ccm/positive-control")
     enumerate_oneshot(E, dec, iv, aad, ct, tg, (7, 13), "sm4_ccm_decrypt(key=%s, taglen=%d)" % (key.hex(), taglen))
+    tag_lengths(E, dec, iv, aad, ct, tg, None, 4, True, "sm4_ccm_decrypt(key=%s, taglen=%d)" % (key.hex(), taglen))
+
+
+def tag_lengths(E, dec, nonce, aad, ct, tag, full_tag, min_tag, bound, what):
+    """The tag cut short or lengthened with the declared tag length following it (a receiver that takes "the rest of the message" as
+    the tag).  dec(nonce, aad, ct, tagbytes) declares len(tagbytes).  Judged:
+      * no tag at all (length 0) and lengths above 16 (no such tag exists; also a memory-safety probe under ASan);
+      * lengths below the interface's documented minimum (min_tag; None when the interface documents none);
+      * a lengthened tag whose extra bytes differ from the full-length tag (full_tag, None for modes that bind the length);
+      * bound=True (CCM: the tag length is part of the authenticated header): every length other than the real one.
+    A GCM tag shortened to a still-admissible length is a prefix of the real tag and is accepted by construction - not judged."""
+    n = len(tag)
+
+    def d(t):
+        return lambda: "%s nonce=%s aad=%s ct=%s tag=%s (declared tag length %d instead of %d)" % (what, nonce.hex(), aad.hex(), ct.hex(), t.hex(), len(t), n)
+    for k in range(0, n):
+        t = tag[:k]
+        if k == 0 or bound or (min_tag is not None and k < min_tag):
+            E.neighbour("tag-shortened", k, dec(nonce, aad, ct, t)[0] == 1, d(t))
+    for k in list(range(n + 1, 21)) + [24, 32, 33, 64]:
+        if k <= 16 and not bound:
+            if full_tag is None:
+                continue
+            ext = bytes(b ^ 0xFF for b in full_tag[n:k])       # differs from the real longer tag in every added byte
+        else:
+            ext = bytes(0xA5 for _ in range(k - n))
+        t = tag + ext
+        E.neighbour("tag-lengthened", k, dec(nonce, aad, ct, t)[0] == 1, d(t))
 
 
 # ---------------------------------------------------------------------------
